@@ -9,6 +9,19 @@ MODELLED = ('Trusted: Coq 8.16.1 kernel (no axioms: every theorem in coq/Props/%
             'the Python harness abstraction/canonicalisation. ')
 
 CHECKS = {
+    'C06': dict(
+        text='Theorems over the model of the detection pass: a flag column exists only for a constraint that plain '
+             'verification fails; per kind the flag is false exactly on the violating records (min/max, type -> all, '
+             'max_nulls -> the nulls, no_duplicates -> every member of a duplicated group; nulls flagged false only by '
+             'type/null-count rules); each record count equals its number of false flags; passing + failing = rows; an '
+             'output file exists afterwards iff something failed. detect_df on generated pairs (flags, n_failures, '
+             'counts, output frame and CSV/parquet file, in_place, stale files) is compared with the extracted model '
+             'and with a per-record statement of each constraint.',
+        note='pandas vector comparisons and file writing are not modelled; known finding: default repair=True '
+             'rewrites the caller\'s column dtype.',
+        technique='Coq proof (flag_false_iff per kind, nfail/partition invariants) + extracted-model correspondence '
+                  'with detect_df',
+        design='7 C06'),
     'C01': dict(
         text='Theorem closure: for every well-typed abstract column (any length, null pattern, values incl. +-inf), '
              'strict or sloppy, any epsilon, every constraint produced by the discovery rules verifies on that column '
